@@ -185,7 +185,7 @@ func TestParseTwice(t *testing.T) {
 // trees and errors each time it comes round, and a tree kept from an earlier parse must not change
 // while later parses run (objects handed out by a parser's pools stay valid after the parser is gone).
 func TestParseHistory(t *testing.T) {
-	harness.Check(t, "parse-history", 800, 60000, func(rt *rapid.T) {
+	harness.Check(t, "parse-history", 600, 60000, func(rt *rapid.T) {
 		n := rapid.IntRange(2, 5).Draw(rt, "jobs")
 		jobs := make([]job, n)
 		for i := range jobs {
@@ -233,10 +233,12 @@ func TestParseHistory(t *testing.T) {
 				}
 				first[i] = k
 			}
-			for q, k := range first {
-				if !astx.IsNil(k.root) && astx.Fingerprint(k.root) != k.fp {
-					harness.Fail(rt, "kept-tree-changed", jobs[q].src, mt, "after history%s the tree kept from the first parse of job %d has changed: %s", hist, q, firstDiff(k.fp, astx.Fingerprint(k.root)))
-				}
+		}
+		// trees kept from earlier parses are compared once, after the whole history
+		for q := 0; q < n; q++ {
+			if k := first[q]; k != nil && !astx.IsNil(k.root) && astx.Fingerprint(k.root) != k.fp {
+				mt := map[string]string{"version": jobs[q].ver.String(), "history": hist, "jobs": jobsJSON(jobs)}
+				harness.Fail(rt, "kept-tree-changed", jobs[q].src, mt, "after history%s the tree kept from the first parse of job %d has changed: %s", hist, q, firstDiff(k.fp, astx.Fingerprint(k.root)))
 			}
 		}
 		if strings.Contains(hist, "gc") && len(first) >= 2 {
